@@ -553,6 +553,31 @@ func (t *tr) assignTo(lhs ast.Expr, rhs string, ind string) string {
 	return ""
 }
 
+// isLoggingCall: a statement-level call into a logging package has no effect on the data the theorems are about
+func (t *tr) isLoggingCall(c *ast.CallExpr) bool {
+	var obj types.Object
+	switch f := c.Fun.(type) {
+	case *ast.SelectorExpr:
+		if sel, ok := t.info.Selections[f]; ok {
+			obj = sel.Obj()
+		} else {
+			obj = t.info.Uses[f.Sel]
+		}
+	case *ast.Ident:
+		obj = t.info.Uses[f]
+	}
+	if obj == nil || obj.Pkg() == nil {
+		return false
+	}
+	switch obj.Pkg().Path() {
+	case "log", "github.com/sirupsen/logrus", "log/slog":
+		return true
+	case "fmt":
+		return strings.HasPrefix(obj.Name(), "Print") || strings.HasPrefix(obj.Name(), "Fprint")
+	}
+	return false
+}
+
 func (t *tr) isMutexCall(c *ast.CallExpr) bool {
 	se, ok := c.Fun.(*ast.SelectorExpr)
 	if !ok {
@@ -698,6 +723,9 @@ func (t *tr) stmts(list []ast.Stmt, k cont, ind string, inLoop bool) string {
 		c, ok := x.X.(*ast.CallExpr)
 		if !ok {
 			unsup("expression statement")
+		}
+		if t.isLoggingCall(c) {
+			return ind + "-- (logging)\n" + rest()
 		}
 		if t.isMutexCall(c) {
 			se := c.Fun.(*ast.SelectorExpr)
